@@ -20,6 +20,8 @@ type plantT struct {
 	at     string
 	mutate func(c *wsT) []expT // applied to a clone; nil result = not applicable
 	cat    string              // a category (or rule id) that contains the planted rule in every version that has it
+	single bool                // value-space operators (many small variations of one edit): ONE configuration per
+	// plant, alternating between "everything enabled" and "the rule's category alone"
 }
 
 func (p plantT) stratum() string { return p.op + "@" + p.kind }
@@ -355,7 +357,8 @@ func enumeratePlants(w *wsT, o lintOpts, r *hx.Rand) []plantT {
 	var out []plantT
 	kind := "" // the kind of the element the following add calls target
 	add := func(op, at, cat string, mutate func(c *wsT) []expT) {
-		out = append(out, plantT{op: op, kind: kind, at: at, mutate: mutate, cat: cat})
+		out = append(out, plantT{op: op, kind: kind, at: at, mutate: mutate, cat: cat,
+			single: strings.HasPrefix(op, "PACKAGE_SAME_<OPTION>/") || op == "PACKAGE_VERSION_SUFFIX/near-miss" || op == "PACKAGE_VERSION_SUFFIX/respelled"})
 	}
 	one := func(rule, file, path string) []expT { return []expT{{rule, file, path}} }
 	badIdx := 0
@@ -364,7 +367,7 @@ func enumeratePlants(w *wsT, o lintOpts, r *hx.Rand) []plantT {
 	for _, fi := range targets(w) {
 		fi := fi
 		f := w.files[fi]
-		proto3 := f.syntax == "proto3"
+		proto3 := f.p3like()
 
 		// ---- messages (top-level, nested at every depth, group bodies) ----
 		f.eachMsgCtx(func(p, nested string, m *msgT, ctx msgCtx) {
@@ -501,6 +504,13 @@ func enumeratePlants(w *wsT, o lintOpts, r *hx.Rand) []plantT {
 					return one("FIELD_NOT_REQUIRED", f.path, p+".1")
 				})
 			}
+			if f.syntax == "editions" && !isExt && fl.oneof < 0 && fl.label == "" && !fl.isMap() {
+				// editions: a required field is spelled with a feature, the label stays empty
+				add("FIELD_NOT_REQUIRED/editions", f.path+":"+p, "BASIC", func(c *wsT) []expT {
+					get(c).presence = "LEGACY_REQUIRED"
+					return one("FIELD_NOT_REQUIRED", f.path, p+".1")
+				})
+			}
 		})
 
 		// ---- enums and values ----
@@ -565,7 +575,7 @@ func enumeratePlants(w *wsT, o lintOpts, r *hx.Rand) []plantT {
 						get(c).values[vi].name = "ZZ" + o.zero()
 						return one("ENUM_VALUE_PREFIX", f.path, vp+".1")
 					})
-					if o.zeroSuffix != "" {
+					if o.zero() != "_UNSPECIFIED" {
 						// a custom suffix is configured: the DEFAULT suffix is a violation now
 						add("ENUM_ZERO_VALUE_SUFFIX/default-suffix", f.path+":"+vp, "STANDARD", func(c *wsT) []expT {
 							get(c).values[vi].name = upper + "_UNSPECIFIED"
@@ -628,7 +638,7 @@ func enumeratePlants(w *wsT, o lintOpts, r *hx.Rand) []plantT {
 				})
 			}
 			svcSuffixPlant("SERVICE_SUFFIX", strings.TrimSuffix(s.name, o.svc())+"Svc")
-			if o.svcSuffix != "" {
+			if o.svc() != "Service" {
 				// a custom suffix is configured: the DEFAULT suffix is a violation now
 				svcSuffixPlant("SERVICE_SUFFIX/default-suffix", strings.TrimSuffix(s.name, o.svc())+"Service")
 			} else {
@@ -877,32 +887,42 @@ func enumeratePlants(w *wsT, o lintOpts, r *hx.Rand) []plantT {
 			}
 			return exp
 		})
-		if len(samePkg) > 1 {
-			k := r.Intn(7)
-			add("PACKAGE_SAME_"+strings.ToUpper(optNames[k]), f.path, "MINIMAL|BASIC", func(c *wsT) []expT {
+		// a file moved into a SUBDIRECTORY of its package's directory, or into a sibling directory whose
+		// name has the package's directory as a string prefix: still two directories
+		for _, how := range []string{"subdir", "sibling-prefix"} {
+			how := how
+			add("PACKAGE_SAME_DIRECTORY/"+how, f.path, "MINIMAL", func(c *wsT) []expT {
 				g := c.files[fi]
-				if g.opts[k] == "" {
-					g.opts[k] = optValuePool[k][0]
-				} else if k == 2 {
-					g.opts[k] = map[string]string{"true": "false", "false": "true"}[g.opts[k]]
-				} else if r.Chance(1, 2) {
-					g.opts[k] = ""
+				dir, base := dirOf(g.path), g.path[strings.LastIndex(g.path, "/")+1:]
+				if how == "subdir" {
+					g.path = dir + "/sub/" + base
 				} else {
-					g.opts[k] += "2"
+					g.path = dir + "x/" + base
 				}
-				rule := map[int]string{0: "PACKAGE_SAME_CSHARP_NAMESPACE", 1: "PACKAGE_SAME_GO_PACKAGE", 2: "PACKAGE_SAME_JAVA_MULTIPLE_FILES",
-					3: "PACKAGE_SAME_JAVA_PACKAGE", 4: "PACKAGE_SAME_PHP_NAMESPACE", 5: "PACKAGE_SAME_RUBY_PACKAGE", 6: "PACKAGE_SAME_SWIFT_PREFIX"}[k]
-				var exp []expT
-				for _, fj := range samePkg {
-					path := ""
-					if c.files[fj].opts[k] != "" {
-						path = pk("8", optFieldNumbers[k])
+				exp := one("PACKAGE_DIRECTORY_MATCH", g.path, "2")
+				if len(samePkg) > 1 {
+					for _, fj := range samePkg {
+						exp = append(exp, expT{"PACKAGE_SAME_DIRECTORY", c.files[fj].path, "2"})
 					}
-					exp = append(exp, expT{rule, c.files[fj].path, path})
 				}
 				return exp
 			})
 		}
+		// the package of one file differs from its directory neighbours in the VERSION component only
+		add("DIRECTORY_SAME_PACKAGE/version-only", f.path, "MINIMAL", func(c *wsT) []expT {
+			if len(sameDir) < 2 {
+				return nil
+			}
+			parts := strings.Split(f.pkg, ".")
+			last := parts[len(parts)-1]
+			parts[len(parts)-1] = "v9" + last[1:] // v1 -> v91, v1p1beta1 -> v91p1beta1: a version of the same stability
+			c.files[fi].pkg = strings.Join(parts, ".")
+			exp := one("PACKAGE_DIRECTORY_MATCH", f.path, "2")
+			for _, fj := range sameDir {
+				exp = append(exp, expT{"DIRECTORY_SAME_PACKAGE", c.files[fj].path, "2"})
+			}
+			return exp
+		})
 	}
 
 	// ---- whole-package operators (package statement of every file of the package + its directory) ----
@@ -914,6 +934,7 @@ func enumeratePlants(w *wsT, o lintOpts, r *hx.Rand) []plantT {
 			continue
 		}
 		seen[pkg] = true
+		kind = "package"
 		parts := strings.Split(pkg, ".")
 		repackage := func(c *wsT, newPkg string, rule string) []expT {
 			var exp []expT
@@ -944,8 +965,235 @@ func enumeratePlants(w *wsT, o lintOpts, r *hx.Rand) []plantT {
 				return repackage(c, strings.Join(p2, "."), "PACKAGE_VERSION_SUFFIX")
 			})
 		}
+		// near misses of the documented version grammar (v\d+ | v\d+test.* | v\d+(alpha|beta)\d* |
+		// v\d+p\d+(alpha|beta)\d*, numbers >= 1) as the last component: every one must be reported;
+		// a component that is not lower_snake_case ([a-z0-9]+(_[a-z0-9]+)*) violates that rule as well
+		for _, bad := range nearMissSuffixes {
+			bad := bad
+			kind = "suffix=" + bad
+			add("PACKAGE_VERSION_SUFFIX/near-miss", pkg, "STANDARD", func(c *wsT) []expT {
+				p2 := append(append([]string{}, parts[:len(parts)-1]...), bad)
+				np := strings.Join(p2, ".")
+				if versioned, _ := isDocVersionPackage(np); versioned {
+					panic("harness: " + np + " has a documented version suffix")
+				}
+				exp := repackage(c, np, "PACKAGE_VERSION_SUFFIX")
+				if !reLowerSnake.MatchString(bad) {
+					for _, e := range append([]expT{}, exp...) {
+						exp = append(exp, expT{"PACKAGE_LOWER_SNAKE_CASE", e.file, "2"})
+					}
+				}
+				return exp
+			})
+		}
+		// other spellings of a documented version: nothing to report (besides a stable package that
+		// now imports an unstable one: stableDoc)
+		for _, good := range respelledSuffixes {
+			good := good
+			kind = "suffix=" + good
+			add("PACKAGE_VERSION_SUFFIX/respelled", pkg, "STANDARD", func(c *wsT) []expT {
+				p2 := append(append([]string{}, parts[:len(parts)-1]...), good)
+				np := strings.Join(p2, ".")
+				if versioned, _ := isDocVersionPackage(np); !versioned {
+					panic("harness: " + np + " has no documented version suffix")
+				}
+				for _, fj := range targets(c) {
+					if c.files[fj].pkg == np {
+						return nil // the package exists already
+					}
+				}
+				repackage(c, np, "")
+				return []expT{}
+			})
+		}
+		kind = "package"
+		// every file of the package moves to one other directory: still ONE directory per package
+		add("PACKAGE_SAME_DIRECTORY/all-moved", pkg, "MINIMAL", func(c *wsT) []expT {
+			exp := []expT{}
+			for _, fj := range targets(c) {
+				g := c.files[fj]
+				if g.pkg == pkg {
+					g.path = "misc/elsewhere/" + g.path[strings.LastIndex(g.path, "/")+1:]
+					exp = append(exp, expT{"PACKAGE_DIRECTORY_MATCH", g.path, "2"})
+				}
+			}
+			return exp
+		})
+		// every file of the package gets the same other package and stays where it is: still ONE
+		// package per directory
+		add("DIRECTORY_SAME_PACKAGE/all-repackaged", pkg, "MINIMAL", func(c *wsT) []expT {
+			p2 := append([]string{}, parts...)
+			p2[len(p2)-2] += "_other"
+			exp := []expT{}
+			for _, fj := range targets(c) {
+				g := c.files[fj]
+				if g.pkg == pkg {
+					g.pkg = strings.Join(p2, ".")
+					exp = append(exp, expT{"PACKAGE_DIRECTORY_MATCH", g.path, "2"})
+				}
+			}
+			return exp
+		})
+		// ---- the VALUE SPACE of PACKAGE_SAME_<option>: unset / explicit default / non-default values
+		// over the files of one package (see optConfigs) ----
+		var members []int
+		for _, fj := range targets(w) {
+			if w.files[fj].pkg == pkg {
+				members = append(members, fj)
+			}
+		}
+		for k := 0; k < 7; k++ {
+			k := k
+			for _, cfg := range optConfigs(k, len(members)) {
+				cfg := cfg
+				// the number of files is part of the configuration name (one-file-*, three-files-*); the six
+				// string options share every SILENT configuration (one stratum, the option rotates), the
+				// conflicting ones and java_multiple_files are strata per option
+				kind = optNames[k]
+				if k != 2 && cfg.silent {
+					kind = "string-option"
+				}
+				odd := r.Intn(len(members))
+				add("PACKAGE_SAME_<OPTION>/"+cfg.name, pkg, "MINIMAL|BASIC", func(c *wsT) []expT {
+					vals := cfg.assign(len(members), odd)
+					for i, fj := range members {
+						c.files[fj].opts[k] = vals[i]
+					}
+					return packageSameDoc(c, pkg, k)
+				})
+			}
+		}
 	}
 	return out
+}
+
+// nearMissSuffixes: last package components that are NOT of a documented version form — numbers in
+// another notation (digit separators, base prefixes, exponent), zero where >= 1 is demanded, a
+// missing or doubled part, the wrong case.
+var nearMissSuffixes = []string{"v1_0", "v1_1", "v0x1", "v0b1", "v0o7", "v0x1f", "v1e3", "v1alpha1_1", "v1alpha_1", "v1p1_0beta1", "v1_0p1beta1", "v1p0x1alpha",
+	"v1_", "v00", "v1alpha0", "v1alpha00", "v1p0beta1", "v0p1beta1", "v1pbeta1", "v1p", "v1beta1alpha", "v1alphabeta", "v1alpha1p1", "v1x", "v1betax", "vv1", "v",
+	"x1", "v1tes", "v1alph", "V1", "v1Alpha1", "v1ALPHA"}
+
+// respelledSuffixes: documented versions in less common spellings.
+var respelledSuffixes = []string{"v01", "v10", "v2147483647", "v1alpha", "v2beta3", "v1p2alpha3", "v3p1beta", "v001p01beta01", "v1test", "v1testfoo_bar", "v1test_1", "v7testalpha"}
+
+type optConfig struct {
+	name   string
+	assign func(n, odd int) []optT
+	silent bool // for a string option (unset and "" are one value) the files agree
+}
+
+// optConfigs: how the n files of one package may spell option k.  A = a non-default value, A2 = A
+// with one letter in the other case, B = another non-default value, D = the default spelled out
+// (`= ""` / `= false`), U = no option statement.  `odd` is the index of the file that differs.
+func optConfigs(k, n int) []optConfig {
+	A, B, D, U := setOpt(optValuePool[k][0]), setOpt(optValuePool[k][len(optValuePool[k])-1]), optDefault(k), unsetOpt()
+	all := func(v optT) func(n, odd int) []optT {
+		return func(n, _ int) []optT {
+			out := make([]optT, n)
+			for i := range out {
+				out[i] = v
+			}
+			return out
+		}
+	}
+	oneOdd := func(oddV, rest optT) func(n, odd int) []optT {
+		return func(n, odd int) []optT {
+			out := all(rest)(n, 0)
+			out[odd] = oddV
+			return out
+		}
+	}
+	if n == 1 {
+		return []optConfig{{"one-file-unset", all(U), true}, {"one-file-explicit-default", all(D), true}, {"one-file-non-default", all(A), true}}
+	}
+	cfgs := []optConfig{
+		{"all-unset", all(U), true},
+		{"all-explicit-default", all(D), true},
+		{"all-equal-non-default", all(A), true},
+		{"unset-vs-explicit-default", oneOdd(D, U), true},
+		{"explicit-default-vs-unset", oneOdd(U, D), true},
+		{"explicit-default-vs-non-default", oneOdd(D, A), false},
+		{"non-default-vs-explicit-default", oneOdd(A, D), false},
+		{"non-default-vs-unset", oneOdd(A, U), false},
+		{"unset-vs-non-default", oneOdd(U, A), false},
+	}
+	if k != 2 {
+		A2 := setOpt(optValuePool[k][1])
+		cfgs = append(cfgs, optConfig{"two-non-defaults", oneOdd(B, A), false}, optConfig{"case-only", oneOdd(A2, A), false})
+	}
+	if n >= 3 {
+		cfgs = append(cfgs, optConfig{"three-files-unset-default-non-default", func(n, odd int) []optT {
+			out := all(A)(n, 0)
+			out[odd], out[(odd+1)%n] = U, D
+			return out
+		}, false})
+	}
+	return cfgs
+}
+
+// packageSameDoc: "all files with a given package have the same value for the <option> option".
+// The VALUE of a string option that is not set is the empty string — `option go_package = "";`
+// and no statement are one value (the default of the protobuf language; the code agrees).  For
+// java_multiple_files the rule's own message tells "values" from "no value" ("have both values
+// %q and no value for option"), so a file without the statement and a file with
+// `option java_multiple_files = false;` do NOT agree.  When the values differ EVERY file of the
+// package is reported: at its option statement when it has one, else without a location.
+func packageSameDoc(c *wsT, pkg string, k int) []expT {
+	vals := map[string]bool{}
+	var files []*fileT
+	for _, fj := range targets(c) {
+		g := c.files[fj]
+		if g.pkg != pkg {
+			continue
+		}
+		files = append(files, g)
+		switch {
+		case g.opts[k].set:
+			vals["="+g.opts[k].val] = true
+		case k == 2:
+			vals["no value"] = true
+		default:
+			vals["="] = true
+		}
+	}
+	exp := []expT{}
+	if len(vals) <= 1 {
+		return exp
+	}
+	rule := "PACKAGE_SAME_" + strings.ToUpper(optNames[k])
+	for _, g := range files {
+		path := ""
+		if g.opts[k].set {
+			path = pk("8", optFieldNumbers[k])
+		}
+		exp = append(exp, expT{rule, g.path, path})
+	}
+	return exp
+}
+
+// stableDoc: STABLE_PACKAGE_NO_IMPORT_UNSTABLE — a file of a package with a stable version
+// (v\d+) must not import a file of a package with an unstable one (alpha, beta, test); packages
+// without a documented version are neither.  Only target files are looked at.
+func stableDoc(c *wsT) []expT {
+	var exp []expT
+	for _, f := range c.files {
+		if f.isImport {
+			continue
+		}
+		if _, stable := isDocVersionPackage(f.pkg); !stable {
+			continue
+		}
+		for ii, i := range f.imports {
+			if i.file < 0 || c.files[i.file].isImport {
+				continue
+			}
+			if versioned, stable := isDocVersionPackage(c.files[i.file].pkg); versioned && !stable {
+				exp = append(exp, expT{"STABLE_PACKAGE_NO_IMPORT_UNSTABLE", f.path, pk("3", ii)})
+			}
+		}
+	}
+	return exp
 }
 
 func catUse(cat string, v bufconfig.FileVersion) []string {
@@ -1010,7 +1258,7 @@ func plantAll(run *hx.Run, l *linter, r *hx.Rand, w *wsT, o lintOpts, wi int, re
 	for _, p := range plants {
 		run.CountN("B:stratum-available:"+p.stratum(), 1)
 	}
-	plants = selectPlants(plants, run.N(70, 250), r)
+	plants = selectPlants(plants, run.N(90, 250), r)
 	for pi, p := range plants {
 		what := fmt.Sprintf("workspace %d, plant %s at %s (%s)", wi, p.op, p.at, p.kind)
 		pw := w.clone()
@@ -1020,6 +1268,7 @@ func plantAll(run *hx.Run, l *linter, r *hx.Rand, w *wsT, o lintOpts, wi int, re
 			continue
 		}
 		expect = append(expect, pkgCycles(pw)...)
+		expect = append(expect, stableDoc(pw)...)
 		b, err := build(pw)
 		if err != nil {
 			run.Count("B:plant-build-failed:" + p.op)
@@ -1040,7 +1289,12 @@ func plantAll(run *hx.Run, l *linter, r *hx.Rand, w *wsT, o lintOpts, wi int, re
 		if pi%8 != 0 && v != bufconfig.FileVersionV1Beta1 {
 			except = []string{"PROTOVALIDATE"}
 		}
-		judge(run, l, pw, b, lintCfg{v, allUse(v), o, except}, what, expect, replay)
+		if !p.single || pi%2 == 0 {
+			judge(run, l, pw, b, lintCfg{v, allUse(v), o, except}, what, expect, replay)
+		}
+		if p.single && pi%2 == 0 {
+			continue
+		}
 		v2 := versions[(wi+pi+1)%3]
 		except = nil
 		if strings.Contains(p.cat, "STANDARD") && v2 != bufconfig.FileVersionV1Beta1 && pi%8 != 1 {
